@@ -379,7 +379,7 @@ def run(ctx):
     k = 0
     for name, ids in CHAIN_SHAPES + ASSOC_SHAPES:
         for comp in (False, True):
-            for phase in range(4 if ctx.quick else 12):
+            for phase in range(4 if ctx.quick else 48):
                 k += 1
                 if not ctx.mine(k):
                     continue
